@@ -82,22 +82,38 @@ def check_builder_language(ctx, led, v, rule="C08.official"):
     names = ctx.ce.table(const, "METRICS_VALUE_NAMES", rule)
     n = 0
     prefixes = {2: [""], 3: ["CVSS:3.0/", "CVSS:3.1/"], 4: ["CVSS:4.0/"]}[v]
-    for label, order in (("all metrics", list(abbr.keys())), ("mandatory", list(mand))):
+    # the order of the fields is the order in which the builder appends them: read off the value
+    # graph of ask_interactively (semantic analysis of C16), not assumed from a table
+    from .rules_inter import NUM_OF_VERSION, check_builder_semantics
+    from .rules_parse import NullLedger
+
+    if ("builder_order",) not in ctx.memo:
+        check_builder_semantics(ctx, NullLedger())
+    found = ctx.memo.get(("builder_order",), {})
+    cases = []
+    for (version, all_metrics), order in sorted(found.items(), key=lambda kv: (str(kv[0][0]), kv[0][1])):
+        if NUM_OF_VERSION.get(version, {3: 3, 4: 4}.get(version)) == v:
+            cases.append(("all metrics" if all_metrics else "mandatory", version, order))
+    if not cases:
+        raise AnalysisError("C08.official", "the field order of the interactive builder could not be determined for version %d" % v)
+    for label, version, order in cases:
         fields = []
         for k in order:
             vals = list(names.get(k, {}).keys()) if isinstance(names.get(k), dict) else []
             # every asked metric is answered exactly once: all fields are present
             fields.append((k, ["%s:%s" % (k, x) for x in vals], True))
-        for p in prefixes:
+        from .rules_inter import PREFIX_FOR
+
+        for p in [PREFIX_FOR[version]]:
             dfa, pat = pattern_dfa(ctx, SCHEMA_OF_PREFIX[p])
             ok, witness = rx.ordered_language_included(dfa, [p], fields)
             n += 1
             led.check(
                 ok,
                 rule,
-                "%s.%s order -> ask_interactively(%s) [%s]" % (const, "METRICS_ABBREVIATIONS" if label == "all metrics" else "METRICS_MANDATORY", label, p or "v2"),
+                "ask_interactively(version=%r, %s) [%s]" % (version, label, p or "v2"),
                 "cvss/interactive.py",
-                "the interactive builder can return a string outside the official grammar: e.g. %r (asked order %s)" % (witness, order),
+                "the interactive builder can return a string outside the official grammar: e.g. %r (fields are appended in the order %s)" % (witness, order),
             )
     return n
 
